@@ -604,6 +604,7 @@ func runLayoutProp(prop string) runFn {
 				fmu.Lock()
 				known = append(known, fail{d, c, m})
 				fmu.Unlock()
+				res.Count("predicted-class:" + abstractShape(enc))
 			case c != "":
 				fmu.Lock()
 				fails = append(fails, fail{d, c, m})
@@ -655,6 +656,17 @@ func runLayoutProp(prop string) runFn {
 		// the leaves the Layout model treats as opaque well-formed fragments: that hypothesis, on the real bytes
 		leafSweep(res, drv, prop)
 	}
+}
+
+// abstractShape keeps the block-level tokens of a shape encoding (wrappers, sections with their flags, raws, heroes)
+func abstractShape(enc string) string {
+	var out []string
+	for _, f := range strings.Fields(enc) {
+		if strings.HasPrefix(f, "W") || strings.HasPrefix(f, "S") || strings.HasPrefix(f, "r") || strings.HasPrefix(f, "H") || f == ";" {
+			out = append(out, f)
+		}
+	}
+	return strings.Join(out, " ")
 }
 
 func init() {
